@@ -1,0 +1,13 @@
+//go:build verif
+
+package autofile
+
+// VerifStopTickers stops the periodic close/rotate tickers of a group whose
+// simulated process has been killed, so that a dead incarnation can neither
+// rotate the files its successor writes nor keep the simulated clock busy.
+func (g *Group) VerifStopTickers() {
+	g.ticker.Stop()
+	if g.Head != nil {
+		g.Head.ticker.Stop()
+	}
+}
